@@ -172,6 +172,17 @@ def run(ctx):
             ro = origin(enc, idxc[0]['args'][1])
             to_ok = any(cname(c).endswith('::total_out') for c in ro.calls) and any(a[0] == 'agg' and a[1].endswith('RangeFrom') for a in ro.atoms) and not ro.has_arith()
         ctx.ob('CODEC', '%s/output-from-total_out' % feat, to_ok, short_loc(enc.term(comp[0]).get('span')), 'output window is output_vec[total_out..]: %s' % to_ok)
+        # input window: what is handed to the next compress call starts after what the library already consumed (it is
+        # derived from total_in, directly as input[total_in..] or through a local advanced by the total_in delta)
+        ino = origin(enc, enc.term(comp[0])['args'][1])
+        in_idx = [c for c in ino.calls if call_matches(c, ['Index::index', 'Index<I>>::index', 'Index<I> for [T]>::index'])]
+        in_ok = ino.params() == {2} and bool(in_idx)
+        for c in in_idx:
+            ro = origin(enc, c['args'][1])
+            in_ok = in_ok and any(cname(x).endswith('::total_in') for x in ro.calls) and any(a[0] == 'agg' and a[1].endswith('RangeFrom') for a in ro.atoms) \
+                and {x for x in ro.flags if x.startswith('arith:')} <= {'arith:Sub', 'arith:SubWithOverflow'}
+        ctx.ob('CODEC', '%s/input-from-total_in' % feat, in_ok, short_loc(enc.term(comp[0]).get('span')),
+               'input window of the retried compress call advances with the library\'s total_in: %s' % in_ok)
         by_target = {}
         for v, tb in si['variants'].items():
             by_target.setdefault(tb, []).append(v)
